@@ -670,6 +670,8 @@ def oracle_c04(fw, cfg, ops, res):
        exceptions) raises that exception, returns no future, consumes its id, and a later router message bearing
        that id is a protocol violation like any other reply nobody waits for."""
     v = []
+    for what, text in res.get("bystander") or []:        # session objects of one process share no state
+        v.append((f"isolation/other-session-object-disturbed/{what}", text))
     ops, trace = expand_inline(ops, res["trace"], v)
     nreq = 0
     completed = {}
@@ -806,6 +808,12 @@ def oracle_c04(fw, cfg, ops, res):
                 reqs[key]["reply_at"] = i
                 if any(e[0] == "raised" for e in evs):
                     reqs[key]["reply_raised"] = True
+                    if name != "registered":
+                        # (REGISTERED naming a registration id in use is the one reply that is itself a violation)
+                        v.append((f"{name}/matching-reply-treated-as-violation",
+                                  f"{op} bears type and id of the pending request {key} (future {reqs[key].get('j')}"
+                                  f"{', already completed locally' if reqs[key].get('j') in completed else ''}) but "
+                                  f"raised {[e[1] for e in evs if e[0] == 'raised']} (op {i})"))
         # ---- completions ----
         if name != "turn":
             window.append(op)
@@ -879,7 +887,9 @@ def run(ck):
         "SerializationError / PayloadExceededError / TransportLost inside each of the six request kinds followed by a "
         "router message (success, ERROR, progressive RESULT) bearing the id that call consumed, callbacks that re-enter the "
         "API, a second / third life of the same session object (transport lost, new transport, join again: request ids "
-        "start from 1 again), asyncio loop turns at random points; run on the "
+        "start from 1 again), a second session object alive in the same process (joined / not joined, one pending "
+        "request of four kinds, untouched by the history: must stay exactly as it was), asyncio loop turns at random "
+        "points; run on the "
         "real ApplicationSession under Twisted and asyncio and on the Gallina model (coqc, vm_compute); compared: per op "
         "the exact sequence of messages handed to the transport, future completions with content, on_progress calls, "
         "exceptions; non-trivial = at least one request sent and one router message processed; distinct = distinct "
@@ -909,7 +919,7 @@ def run(ck):
         cases = [dict(c) for c in corpus if c.get("fw", fw) == fw]
         for c in cases: c.pop("fw", None)
         while len(cases) < n_hist:
-            cases.append({"cfg": dict(DEFAULT_CFG, lenient=(rng.random() < 0.15)),
+            cases.append({"cfg": dict(DEFAULT_CFG, lenient=(rng.random() < 0.15), bystander=rng.choice([0, 0, 0, 1, 2])),
                           "ops": gen_c04_history(rng, fw, rng.randint(3, max_ops))})
         per = (len(cases) + shards - 1) // shards
         for k in range(0, len(cases), per):
